@@ -39,22 +39,33 @@ func (r RawTime) Value() (t time.Time, valid bool) {
 	return parsedTime, true
 }
 
+// MaxDeltaSeconds is the greatest delta-seconds value this implementation
+// represents: roughly 73 years, which is more than 2^31 seconds, and small
+// enough that sums of a few durations do not overflow [time.Duration].
+const MaxDeltaSeconds = time.Duration(1<<63-1) / 4 / time.Second * time.Second
+
 // RawDeltaSeconds is a string that represents a delta time in seconds,
 // as defined in §1.2.2 of RFC 9111.
 //
-// This implementation supports values up to the maximum range of int64
-// (9223372036854775807 seconds). Values exceeding 2147483648 (2^31) are
-// valid and will not be capped, as allowed by the RFC, which permits
-// using the greatest positive integer the implementation can represent.
+// Values that are too large to represent (including values beyond the range
+// of int64) are valid and are capped at [MaxDeltaSeconds], as the RFC requires
+// for values greater than the greatest integer the implementation can
+// represent.
 type RawDeltaSeconds string
 
 func (r RawDeltaSeconds) Value() (dur time.Duration, valid bool) {
-	if len(r) == 0 || r[0] == '-' {
+	if len(r) == 0 {
 		return
 	}
+	for i := range len(r) {
+		if r[i] < '0' || r[i] > '9' {
+			return
+		}
+	}
 	seconds, err := strconv.ParseInt(string(r), 10, 64)
-	if err != nil {
-		return
+	if err != nil || seconds > int64(MaxDeltaSeconds/time.Second) {
+		// only digits: the value is out of range, not malformed
+		return MaxDeltaSeconds, true
 	}
 
 	return time.Duration(seconds) * time.Second, true
